@@ -413,6 +413,7 @@ def main():
     context_methods(ck, qr, numpy)
     remainder_coupling(ck, qr, numpy)
     slices_created_inside(ck, qr, numpy)
+    slice_behaviours(ck, qr, numpy)
 
     ck.assume("TLC bound: 3 objects (2 usable as context operators), nesting "
               "<= 2(3), histories <= 9(12) steps; replayed behaviours up to "
@@ -614,6 +615,136 @@ def remainder_coupling(ck, qr, numpy):
                         ck.violation("restored" if leave == "normal" else
                                      "exception", "remainder-coupling:" +
                                      where, dict(rp, after_err=e_af), rp)
+
+
+def slice_behaviours(ck, qr, numpy):
+    """SliceAlias.tla: objects as (tag, storage) pairs; at(t) hands out an
+    object with its own storage (negative control: a view).  Simulated
+    behaviours (Enter / Exit / Touch / At) are replayed on a real
+    density-matrix evolution and on a real evolution superoperator: whatever
+    is read is in the basis the specification says, and after all contexts
+    are left every object is in its original representation."""
+    import io
+    import contextlib
+    import tempfile
+    import shutil
+    from harness import tlaparse
+    from quantarhei.qm import LindbladForm
+    ck.tlc("SliceAlias", "SliceAlias.cfg", workers=4)
+    ck.tlc("SliceAlias", "SliceAlias_view.cfg", count=False,
+           expect_violation="RepMatchesTag")
+    d = tempfile.mkdtemp(prefix="c04sa_")
+    try:
+        pref = os.path.join(d, "tr")
+        nsim = 200 if ck.thorough else 50
+        ck.tlc("SliceAlias", "SliceAlias_sim.cfg",
+               simulate="file=%s,num=%d" % (pref, nsim), depth=12, workers=1,
+               seed=ck.seed + 21, count=False)
+        behs = tlaparse.load_behaviours(pref, must_contain="At")
+    finally:
+        shutil.rmtree(d, ignore_errors=True)
+    if len(behs) < 10:
+        raise MachineryFailure("too few SliceAlias behaviours with At")
+    rng = numpy.random.RandomState(ck.seed + 9)
+    n = 3
+    ta = qr.TimeAxis(0.0, 4, 1.0)
+    man = qr.Manager()
+    for bi, beh in enumerate(behs):
+        kind = ("rdme", "eso")[bi % 2]
+        A = rng.randn(n, n)
+        H = (A + A.T) / 2
+        if kind == "eso":
+            ham = qr.Hamiltonian(data=H.copy())
+            K = numpy.zeros((n, n))
+            K[0, n - 1] = 1.0
+            sbi = qr.qm.SystemBathInteraction(
+                sys_operators=[qr.qm.Operator(data=K)], rates=(0.05,))
+            ev = qr.qm.EvolutionSuperOperator(
+                ta, ham=ham, relt=LindbladForm(ham, sbi, as_operators=False))
+            ev.set_dense_dt(2)
+            with contextlib.redirect_stdout(io.StringIO()):
+                ev.calculate()
+        else:
+            v = rng.randn(n, n) + 1j * rng.randn(n, n)
+            d0 = v.dot(v.conj().T)
+            d0 /= numpy.trace(d0)
+            ev = qr.ReducedDensityMatrixEvolution(
+                ta, qr.ReducedDensityMatrix(data=d0.copy()))
+            for k in range(1, 4):
+                ev.data[k, :, :] = (k + 1) * d0 + 0.1 * k * numpy.eye(n)
+        ref = {1: numpy.array(ev.data).copy()}
+        objs = {1: ev}
+        cms, Ss, hist = [], [], []
+        bad = None
+
+        def along(R0):
+            X = R0
+            for S in Ss:
+                S1 = numpy.linalg.inv(S)
+                X = numpy.einsum('ab,...bc,cd->...ad', S1, X, S)
+            return X
+        try:
+            for act, st in beh[1:]:
+                a = st["_args"]
+                if act == "Enter":
+                    Bq = rng.randn(n, n)
+                    if len(cms) % 2:
+                        Bq = Bq + 1j * rng.randn(n, n)
+                    op = qr.qm.SelfAdjointOperator(
+                        data=(Bq + Bq.conj().T) / 2)
+                    cm = qr.eigenbasis_of(op)
+                    cm.__enter__()
+                    cms.append(cm)
+                    Ss.append(numpy.array(man.basis_transformations[-1]))
+                    hist.append(["enter"])
+                elif act == "Exit":
+                    cms.pop().__exit__(None, None, None)
+                    Ss.pop()
+                    hist.append(["exit"])
+                elif act == "At":
+                    k = int(st["nobj"])
+                    with contextlib.redirect_stdout(io.StringIO()):
+                        objs[k] = ev.at(2.0)
+                    ref[k] = ref[1][2].copy()
+                    hist.append(["at", k])
+                elif act == "Touch":
+                    o = int(a[0])
+                    got = numpy.array(objs[o].data)
+                    hist.append(["touch", o])
+                    if kind == "rdme":
+                        want = along(ref[o])
+                        e = float(numpy.abs(got - want).max()) / float(
+                            numpy.abs(want).max())
+                        if e > 1e-9:
+                            bad = ("transparent", "object %d read at depth "
+                                   "%d is not in the context basis (%.2e)"
+                                   % (o, len(cms), e))
+                            break
+                else:
+                    raise MachineryFailure("unknown action " + act)
+        finally:
+            while cms:
+                cms.pop().__exit__(None, None, None)
+        if bad is None:
+            for o, ob in objs.items():
+                e = float(numpy.abs(numpy.array(ob.data) - ref[o]).max()) / \
+                    float(numpy.abs(ref[o]).max())
+                if e > 1e-9:
+                    bad = ("restored", "object %d (%s) not in its original "
+                           "representation after all contexts were left "
+                           "(%.2e)" % (o, "evolution" if o == 1 else
+                                       "taken with at()", e))
+                    break
+        ck.case("slice-behaviour", (bi, str(hist)),
+                nontrivial=any(h[0] == "at" for h in hist) and any(
+                    h[0] == "enter" for h in hist),
+                sample=dict(object=kind, history=hist))
+        ck.traces_validated += 1
+        if bad:
+            ck.violation(bad[0], "slice-behaviour:" + kind,
+                         dict(object=kind, history=hist, why=bad[1]),
+                         dict(kind="slice-behaviour", history=hist))
+        _reset_manager(man)
 
 
 def slices_created_inside(ck, qr, numpy):
